@@ -75,12 +75,19 @@ where
     fn collect_minimum_serialized_edges(
         &self,
         _zalsa: &Zalsa,
-        _edge: QueryEdge,
-        _serialized_edges: &mut FxIndexSet<QueryEdge>,
+        edge: QueryEdge,
+        serialized_edges: &mut FxIndexSet<QueryEdge>,
         _visited_edges: &mut FxHashSet<QueryEdge>,
     ) {
-        // Tracked fields do not have transitive dependencies, and their dependencies are covered by
-        // the base inputs.
+        // Tracked fields do not have transitive dependencies. Their values are covered by the
+        // base inputs of the query that creates the struct, but those inputs are only collected
+        // if that query is flattened as well: when the dependent also depends on the creating
+        // query *directly*, that edge is serialized as it is, and the creating query may be
+        // backdated (same struct ids) although the field changed. The field of a persisted
+        // struct is restored together with its revision, so keep the edge on the field itself.
+        if C::PERSIST {
+            serialized_edges.insert(edge);
+        }
     }
 
     fn flatten_cycle_head_dependencies(
